@@ -40,9 +40,14 @@ def lookup : List (String × String) → String → String
   | [], _ => ""
   | (k, v) :: rest, key => if k = key then v else lookup rest key
 
-/-- one published rule is satisfied by value `v` (membership, no search structure) -/
-def ruleHolds (c : Cond) (v : String) : Bool :=
-  v ≠ "" && v ≠ "no" &&
+/-- the tag collection has the key (whatever its value, the empty one included) -/
+def present : List (String × String) → String → Bool
+  | [], _ => false
+  | (k, _) :: rest, key => k == key || present rest key
+
+/-- one published rule is satisfied by a key that is present (`p`) with value `v` (membership, no search structure) -/
+def ruleHolds (c : Cond) (p : Bool) (v : String) : Bool :=
+  p && v ≠ "no" &&
   match c.kind with
   | .all => true
   | .whitelist => c.values.contains v
@@ -55,6 +60,6 @@ def isArea (nrefs : Nat) (closed : Bool) (tags : List (String × String)) : Bool
   (let area := lookup tags "area"
    if area = "no" then false
    else if area ≠ "" then true
-   else published.any fun c => ruleHolds c (lookup tags c.key))
+   else published.any fun c => ruleHolds c (present tags c.key) (lookup tags c.key))
 
 end OsmVerif.Spec.Polygon
